@@ -107,6 +107,30 @@ func generate(g *Gen, prop string, n int, w *bufio.Writer) {
 		for i := 0; i < n; i++ {
 			g.genProgram(np(), 5+g.intn(40))
 		}
+	case "C05":
+		for i := 0; i < n; i++ {
+			g.genSqrt(np())
+		}
+	case "setters":
+		for i := 0; i < n; i++ {
+			g.genSetters(np())
+		}
+	case "C14":
+		for i := 0; i < n; i++ {
+			if i%2 == 0 {
+				g.genConv(np())
+			} else {
+				g.genSetters(np())
+			}
+		}
+	case "C20":
+		for i := 0; i < n; i++ {
+			g.genRaw(np())
+		}
+	case "C19":
+		for i := 0; i < n; i++ {
+			g.genContext(np(), 3+g.intn(38))
+		}
 	default:
 		fmt.Fprintf(os.Stderr, "unknown property %s\n", prop)
 		os.Exit(2)
